@@ -383,7 +383,7 @@ func (e *Engine) Sweep(tier string, seed uint64, res *report.Result) {
 		}
 	}
 	e.D.Reset()
-	e.sendEnv()
+	e.SendEnv()
 	if !e.EnvOK {
 		res.Failures = append(res.Failures, report.Failure{Kind: "disagreement", Ops: []string{"(address table)"},
 			What: "the relation measured on Proxy.Differs does not recognise a proxy's bound/configured address as the spelling it came from: hypothesis spellingOK of theorem C17_spelling fails",
